@@ -40,6 +40,12 @@ class Injected(RuntimeError):
     pass
 
 
+def env_label(environ):
+    if isinstance(environ, dict):
+        return environ.get('verif.transport')
+    return repr(environ)[:40]
+
+
 def default_config(**kw):
     c = {
         'kind': 'sync', 'serializer': 'default', 'async_handlers': False,
@@ -153,7 +159,7 @@ class Runner:
         if cfg.get('global_catchall'):
             def g_connect(ns, sid, environ, auth=None):
                 return runner._invoke('connect', ns, 'connect', sid,
-                                      [auth], 'global')
+                                      [auth, env_label(environ)], 'global')
 
             def g_disconnect(ns, sid, reason):
                 return runner._invoke('disconnect', ns, 'disconnect', sid,
@@ -168,7 +174,8 @@ class Runner:
 
     def _mk_connect(self, ns, via):
         def connect(sid, environ, auth=None):
-            return self._invoke('connect', ns, 'connect', sid, [auth], via)
+            return self._invoke('connect', ns, 'connect', sid,
+                                [auth, env_label(environ)], via)
         return connect
 
     def _mk_disconnect(self, ns, via):
@@ -205,7 +212,8 @@ class Runner:
                     return h(*a)
             body[name] = m
         add('on_connect', lambda sid, environ, auth=None: runner._invoke(
-            'connect', ns, 'connect', sid, [auth], 'class'))
+            'connect', ns, 'connect', sid, [auth, env_label(environ)],
+            'class'))
         add('on_disconnect', lambda sid, reason: runner._invoke(
             'disconnect', ns, 'disconnect', sid, [reason], 'class'))
         for ev in CLASS_EVENTS:
